@@ -136,10 +136,6 @@ fn run_prog(sc: &mut Box<dyn Scorer>, prog: &[Value], scoring: bool, avoid: Avoi
                         }
                         t = cur.last_danger + 1;
                     }
-                    // like every caller in tantivy, continue a chain at or after the lower bound
-                    if cur.chain && !cur.valid {
-                        t = t.max(cur.last_lb);
-                    }
                     let r = sc.seek_danger(t);
                     cur.chain = true;
                     cur.last_danger = t;
@@ -460,9 +456,6 @@ fn random(a: &Args, tracer: &Tracer) {
     while qi < nq && tries < nq * 20 {
         tries += 1;
         let q = qlib::gen_query(&mut rng, depth, &opts);
-        if avoid && qlib::has_phrase_under_mustnot(&q) {
-            continue;
-        }
         qi += 1;
         let scoring = rng.random_bool(0.6);
         let (w, searcher) = match weight_of(&index, &schema, &q, scoring) {
